@@ -440,6 +440,9 @@ std::string Variable::equivalenceConnectionId(const VariablePtr &variable1, cons
             auto map = createConnectionMap(variable1, variable2);
             for (auto &it : map) {
                 id = it.first->pFunc()->equivalentConnectionId(it.second);
+                if (!id.empty()) {
+                    break;
+                }
             }
             if (id.empty()) {
                 id = variable1->pFunc()->equivalentConnectionId(variable2);
